@@ -6,6 +6,7 @@
 -/
 import CV.GenStruct
 import CV.Proofs.GenRegLemmas
+import CV.Proofs.GenWord
 set_option linter.unusedSimpArgs false
 set_option linter.unusedVariables false
 set_option linter.constructorNameAsVariable false
@@ -76,6 +77,7 @@ def Cond.names : Cond → List Atom
   | .cmpE _ e b _ => gexprNames e ++ b.names
   | .truthE e => gexprNames e
   | .cmpR _ e _ _ => gexprNames e
+  | .wcmp _ s w => [.var s, .el s (.k 1)] ++ w.lo.names ++ w.hi.names
 
 def SStmt.names : SStmt → List Atom
   | .flat s => s.names
@@ -144,6 +146,7 @@ def evalCondP (L : Layout) (m : SrcSt) : Cond → Bool
   | .truthE e => treeVal L m e != 0
   | .cmpR op e y eLeft =>
     if eLeft then op.eval (treeVal L m e) (if y then m.y else m.x) else op.eval (if y then m.y else m.x) (treeVal L m e)
+  | .wcmp ne s w => if ne then wordAt L m.mem s != wval L m w else wordAt L m.mem s == wval L m w
 
 mutual
 def semPure (L : Layout) : Nat → SrcSt → SStmt → Option Out
@@ -838,6 +841,83 @@ theorem treeVal_eqOff (L : Layout) {σ τ : SrcSt} (h : EqOff L σ τ) (e : GExp
 theorem val_eqOff (L : Layout) {σ τ : SrcSt} (h : EqOff L σ τ) (b : Atom) (hn : NoTmp L b.names) :
     val L σ.mem σ.x σ.y b = val L τ.mem τ.x τ.y b := rval_eqOff L h (.of b) hn
 
+/-- the byte-wise (in)equality test is the comparison of the two 16-bit values, whenever the operands' cells are
+    not the scratch cell -/
+theorem wcmpRun_word (L : Layout) {σ τ : SrcSt} (h : EqOff L σ τ) (s : String) (w : WA)
+    (hn : NoTmp L ([Atom.var s, Atom.el s (.k 1)] ++ w.lo.names ++ w.hi.names)) :
+    (wcmpRun L σ s w).1 = (wordAt L τ.mem s != wval L τ w) ∧ EqOff L (wcmpRun L σ s w).2 τ := by
+  have hs0 : ¬ Scratch L (L s) := hn.2 (.var s) (by simp)
+  have hs1 : ¬ Scratch L (L s + 1) := by
+    have := hn.2 (.el s (.k 1)) (by simp)
+    simpa [CellOK] using this
+  have hlo : NoTmp L w.lo.names := ⟨hn.1, fun a ha => hn.2 a (by simp [ha])⟩
+  have hhi : NoTmp L w.hi.names := ⟨hn.1, fun a ha => hn.2 a (by simp [ha])⟩
+  have e1 : EqOff L (setTmp L σ (lowRes .sub (σ.mem.read (L s)) (val L σ.mem σ.x σ.y w.lo)).1) τ := (setTmp_eqOff L _ _).trans h
+  refine ⟨?_, e1⟩
+  have r0 : σ.mem.read (L s) = τ.mem.read (L s) := h.2.2 _ hs0
+  have r1 : (setTmp L σ (lowRes .sub (σ.mem.read (L s)) (val L σ.mem σ.x σ.y w.lo)).1).mem.read (L s + 1) = τ.mem.read (L s + 1) :=
+    e1.2.2 _ hs1
+  have vlo : val L σ.mem σ.x σ.y w.lo = val L τ.mem τ.x τ.y w.lo := val_eqOff L h w.lo hlo
+  have vhi := val_eqOff L e1 w.hi hhi
+  have hct : (setTmp L σ (lowRes .sub (σ.mem.read (L s)) (val L σ.mem σ.x σ.y w.lo)).1).mem.read (L "cctmp")
+      = (lowRes .sub (σ.mem.read (L s)) (val L σ.mem σ.x σ.y w.lo)).1 := by simp [setTmp]
+  have hhc : val L (setTmp L σ (lowRes .sub (σ.mem.read (L s)) (val L σ.mem σ.x σ.y w.lo)).1).mem
+      (setTmp L σ (lowRes .sub (σ.mem.read (L s)) (val L σ.mem σ.x σ.y w.lo)).1).x
+      (setTmp L σ (lowRes .sub (σ.mem.read (L s)) (val L σ.mem σ.x σ.y w.lo)).1).y (hiCell s) = τ.mem.read (L s + 1) := by
+    simp only [hiCell, val, elAddr]
+    exact r1
+  simp only [wcmpRun]
+  rw [hct, hhc, vhi, r0, vlo]
+  -- the two bytes of the difference are zero exactly when the words are equal
+  have hw : wval L τ w = word (val L τ.mem τ.x τ.y w.hi) (val L τ.mem τ.x τ.y w.lo) := by
+    cases w with
+    | wvar t => simp [wval, wordAt, WA.hi, WA.lo, val, elAddr]
+    | wconst n =>
+      simp only [wval, WA.hi, WA.lo, val]
+      exact (word_const n).symm
+    | wbyte a => simp [wval, WA.hi, WA.lo, val]
+  have hsw : wordAt L τ.mem s = word (τ.mem.read (L s + 1)) (τ.mem.read (L s)) := rfl
+  have hp := passes_word .sub (τ.mem.read (L s + 1)) (τ.mem.read (L s)) (val L τ.mem τ.x τ.y w.hi) (val L τ.mem τ.x τ.y w.lo)
+  rw [hw, hsw]
+  generalize highRes BOp.sub (lowRes BOp.sub (τ.mem.read (L s)) (val L τ.mem τ.x τ.y w.lo)).2 (τ.mem.read (L s + 1)) (val L τ.mem τ.x τ.y w.hi) = H at hp ⊢
+  generalize (lowRes BOp.sub (τ.mem.read (L s)) (val L τ.mem τ.x τ.y w.lo)).1 = Lo at hp ⊢
+  generalize word (τ.mem.read (L s + 1)) (τ.mem.read (L s)) = A at hp ⊢
+  generalize word (val L τ.mem τ.x τ.y w.hi) (val L τ.mem τ.x τ.y w.lo) = B at hp ⊢
+  simp only [BOp.apply16] at hp
+  have hz : (word H Lo = 0) ↔ (H = 0 ∧ Lo = 0) := by
+    constructor
+    · intro h0
+      have := congrArg BitVec.toNat h0
+      rw [word_toNat] at this
+      have h1 := H.isLt; have h2 := Lo.isLt
+      simp at this
+      exact ⟨BitVec.eq_of_toNat_eq (by simp; omega), BitVec.eq_of_toNat_eq (by simp; omega)⟩
+    · rintro ⟨rfl, rfl⟩
+      apply BitVec.eq_of_toNat_eq; rw [word_toNat]; simp
+  have hab : (A = B) ↔ (word H Lo = 0) := by
+    rw [hp]
+    constructor
+    · intro e; rw [e]; simp
+    · intro e
+      have : A - B + B = 0 + B := by rw [e]
+      simpa [BitVec.sub_add_cancel] using this
+  by_cases hAB : A = B
+  · have hh := hz.mp (hab.mp hAB)
+    have e1 : (H != 0) = false := by rw [hh.1]; rfl
+    have e2 : (Lo != 0) = false := by rw [hh.2]; rfl
+    have e3 : (A != B) = false := by rw [hAB]; simp
+    rw [e1, e2, e3]; rfl
+  · have hne : ¬ (H = 0 ∧ Lo = 0) := fun hh => hAB (hab.mpr (hz.mpr hh))
+    have e3 : (A != B) = true := by simpa using hAB
+    rw [e3]
+    by_cases hH : H = 0
+    · have hL : Lo ≠ 0 := fun e => hne ⟨hH, e⟩
+      have e1 : (H != 0) = false := by rw [hH]; rfl
+      have e2 : (Lo != 0) = true := by simpa using hL
+      rw [e1, e2]; rfl
+    · have e1 : (H != 0) = true := by simpa using hH
+      rw [e1]; rfl
+
 /-- the condition as the code evaluates it (state threaded through `&&` / `||`, scratch effects) against its plain
     reading: the same truth value, and the state it leaves differs from the plain state only in the compiler's cells -/
 theorem condRun_eqOff (L : Layout) (τ : SrcSt) (c : Cond) : ∀ {σ : SrcSt}, EqOff L σ τ → NoTmp L c.names →
@@ -890,6 +970,14 @@ theorem condRun_eqOff (L : Layout) (τ : SrcSt) (c : Cond) : ∀ {σ : SrcSt}, E
     refine ⟨?_, by simpa using t2⟩
     simp only [evalCond_truthE, evalCondP]
     rw [t1]
+  | wcmp ne s w =>
+    intro σ h hn
+    obtain ⟨w1, w2⟩ := wcmpRun_word L h s w hn
+    refine ⟨?_, by simpa using w2⟩
+    simp only [evalCond_wcmp, evalCondP, w1]
+    cases ne
+    · simp only [Bool.false_eq_true, if_false, bne, Bool.not_not]
+    · simp
   | cmpR op e y eLeft =>
     intro σ h hn
     obtain ⟨t1, t2⟩ := treeRun_eqOff L h e hn
